@@ -107,8 +107,10 @@ def derived_cache_rule(index, rep, rid, cls_q):
 def folding_rule(index, rep, rid):
     folds = {}
     fold_sites = [TM + ".Taxon._get_lower_cased_label@", TNS + "._lookup_label", "dendropy.dataio.nexusreader.NexusReader._parse_taxlabels_statement"]
+    # the caseless dictionaries that hold label -> taxon maps (label_taxon_map, the NEXUS symbol mapper) fold with the same method
+    caseless = [q for q in index.functions if q.startswith("dendropy.utility.container.CaseInsensitiveDict.") or q.startswith("dendropy.utility.container.OrderedCaselessDict.")]
     for q in list(index.functions):
-        if q.startswith(TM + ".Taxon._get_lower_cased_label") or q in fold_sites:
+        if q.startswith(TM + ".Taxon._get_lower_cased_label") or q in fold_sites or q in caseless:
             fi = index.functions[q]
             for c in calls_in(fi.node):
                 if isinstance(c.func, ast.Attribute) and c.func.attr in ("lower", "casefold", "upper") and not c.args:
